@@ -216,6 +216,10 @@ async def _async_program(eng, ops, out, info):
                 if name == "connect":
                     if conn is None:
                         conn = await eng.connect()
+                        if info.get("aexit"):
+                            # the application's own reference (the "as conn" variable of an async with block outlives the block):
+                            # releasing the pooled connection must not depend on this object being deallocated
+                            info.setdefault("keep", []).append(conn)
                         nested = []
                 elif name == "close":
                     if conn is not None:
@@ -358,10 +362,14 @@ def _run_async(path, ops, cancel_at=None, aexit=False):
                 if others:
                     await asyncio.wait(others, timeout=20)
                 await asyncio.sleep(0)
+            # before any garbage collection: with the context-manager exits (shielded close) nothing may depend on the GC fallback
+            post["checkedout_pre_gc"] = pool.checkedout()
+            info.pop("keep", None)
             gc.collect()
             for _ in range(3):
                 await asyncio.sleep(0)
             post["cancelled"] = cancelled
+            post["aexit_mode"] = bool(aexit)
             post["checkedout"] = pool.checkedout()
             post["balances"] = [b for b in ledger["balance"].values() if b != 0]
             # (with autocommit=False pysqlite keeps a transaction open at all times, so in_transaction says nothing; a left-over
@@ -413,6 +421,9 @@ def _post_invariants(post, info, ops, k, path, cancel):
     where = f"program {ops} cancelled at suspension {k} (op {info.get('cancel_op')})" if cancel else f"program {ops} (no cancellation)"
     if post.get("ledger_bad"):
         raise Violation("C29/pool/connection-returned-not-exactly-once", f"{where}: pool ledger {post['ledger_bad']}")
+    if post.get("aexit_mode") and post.get("checkedout_pre_gc") not in (0, None):
+        raise Violation("C29/pool/connection-returned-only-by-gc", f"{where}: every connection / session was released through __aexit__ (shielded close) or an un-cancelled close(), "
+                        f"yet pool.checkedout() == {post.get('checkedout_pre_gc')} after all tasks finished and before any garbage collection (after gc: {post.get('checkedout')})")
     if post.get("checkedout") != 0:
         raise Violation("C29/pool/connection-left-checked-out", f"{where}: pool.checkedout() == {post.get('checkedout')} after the task finished (gc warnings: {post.get('gc_warnings')})")
     if post.get("balances"):
@@ -492,7 +503,8 @@ def _equiv_cases(draw):
 
 @st.composite
 def _cancel_cases(draw):
-    return {"ops": draw(_programs()), "aexit": draw(st.booleans()), "points": draw(st.lists(st.integers(0, 200), min_size=1, max_size=6))}
+    # (negative values count back from the last suspension: the release paths - close / __aexit__ / commit - sit at the end of a program)
+    return {"ops": draw(_programs()), "aexit": draw(st.booleans()), "points": draw(st.lists(st.one_of(st.integers(0, 200), st.integers(-10, -1)), min_size=1, max_size=6))}
 
 
 @st.composite
@@ -504,7 +516,7 @@ def subs(tier):
     if tier == "quick":
         return [
             Generated("equiv", check_equiv, strategy=_equiv_cases(), quick=160, thorough=3000),
-            Generated("cancel", check_cancel, strategy=_cancel_cases(), quick=130, thorough=3000),
+            Generated("cancel", check_cancel, strategy=_cancel_cases(), quick=300, thorough=3000),
         ]
     return [
         Generated("equiv", check_equiv, strategy=_equiv_cases(), quick=160, thorough=3000),
